@@ -96,11 +96,50 @@ def retry_records(quick: bool, seed: int) -> list[dict[str, Any]]:
     return recs
 
 
+def observe_throttling(sim: Any) -> tuple[dict[int, list[dict[str, Any]]], Any]:
+    """Observe (never alter) throttlers.throttled: every entry, what it yields, how the body ends, the return -- per throttler."""
+    import contextlib
+    from kopf._core.actions import throttlers
+    orig = throttlers.throttled
+    traces: dict[int, list[dict[str, Any]]] = {}
+    keep: list[Any] = []
+    ms = lambda x: -1 if x is None else int(round(x * 1000))
+
+    @contextlib.asynccontextmanager
+    async def traced(*, throttler: Any, **kw: Any):
+        if all(throttler is not k for k in keep):
+            keep.append(throttler)
+        tr = traces.setdefault([i for i, k in enumerate(keep) if k is throttler][0], [])
+        snap = lambda: {'t': ms(sim.now), 'until': ms(throttler.active_until), 'last': ms(throttler.last_used_delay)}
+        w = kw.get('wakeup')
+        tr.append({'ev': 'enter', 'preset': bool(w is not None and w.is_set()), **snap()})
+        cm = orig(throttler=throttler, **kw)
+        run = await cm.__aenter__()
+        tr.append({'ev': 'yield', 'run': bool(run), **snap()})
+        try:
+            yield run
+        except BaseException as e:
+            if not isinstance(e, Exception):
+                tr.append({'ev': 'cut', **snap()})
+                raise
+            tr.append({'ev': 'exit', 'outcome': 'err' if run else 'raise', **snap()})
+            if not await cm.__aexit__(type(e), e, e.__traceback__):
+                tr.append({'ev': 'cut', **snap()})
+                raise
+        else:
+            tr.append({'ev': 'exit', 'outcome': 'ok' if run else 'skip', **snap()})
+            await cm.__aexit__(None, None, None)
+        tr.append({'ev': 'leave', **snap()})
+    throttlers.throttled = traced
+    return traces, (lambda: setattr(throttlers, 'throttled', orig))
+
+
 def throttle_case(sc: dict[str, Any]) -> dict[str, Any]:
     import kopf
     from sim.fakek8s import Fault, Plan
     from sim.opsim import GROUP, PLURAL, VERSION, Sim
     sim = Sim(wall_budget=20)
+    ttraces, restore = observe_throttling(sim)
     try:
         reg = sim.registry()
         errs = list(sc['errors'])            # per processing of object A: True = raise
@@ -157,8 +196,10 @@ def throttle_case(sc: dict[str, Any]) -> dict[str, Any]:
         recovered = len(runs) > n_before and runs[-1]['ok']
         op.finish()
         return {'kind': 'throttle', 'id': sc['id'], 'delays': list(sc['delays']), 'runs': runs[:n_before], 'others': others,
-                'alive': alive and not op.killed, 'recovered': recovered, 'scenario': sc}
+                'alive': alive and not op.killed, 'recovered': recovered, 'scenario': sc,
+                'ttraces': [{'id': f'{sc["id"]}/{k}', 'delays': [int(d * 1000) for d in sc['delays']], 'events': ev} for k, ev in sorted(ttraces.items())]}
     finally:
+        restore()
         sim.close()
 
 
@@ -271,6 +312,33 @@ def timer_case(sc: dict[str, Any]) -> dict[str, Any]:
         sim.close()
 
 
+def judge_throttle(traces: list[dict[str, Any]], rep: Any) -> dict[str, str]:
+    import json, os, re, shutil, tempfile
+    from vf.evidence import MachineryFailure
+    if not traces:
+        return {}
+    scratch = tempfile.mkdtemp(prefix='vf-thr-')
+    try:
+        path = os.path.join(scratch, 'traces.json')
+        with open(path, 'w') as f:
+            json.dump([{'id': t['id'], 'delays': t['delays'] or [], 'events': t['events']} for t in traces], f)
+        cfg = 'SPECIFICATION TSpec\nCONSTANTS\n  Delays <- D0\n  Horizon = 0\n  MaxCalls = 1000000\nCONSTRAINT Book\nPOSTCONDITION Verdicts\nCHECK_DEADLOCK FALSE\n'
+        r = tlc.run('Trace_Throttle', cfg_text=cfg, workers=1, deque=True, env={'TRACE_FILE': path}, timeout=900)
+    finally:
+        shutil.rmtree(scratch, ignore_errors=True)
+    if not r.ok:
+        raise MachineryFailure(f'Trace_Throttle failed: {r.violated} {r.errors}\n{r.out[-3000:]}')
+    rep.add_tlc('Trace_Throttle', r)
+    got = {int(m.group(1)): m for m in re.finditer(r'<<\s*"VERDICT",\s*(\d+),\s*"([^"]*)",\s*(-?\d+),\s*(\d+)\s*>>', r.out)}
+    if len(got) != len(traces):
+        raise MachineryFailure(f'Trace_Throttle printed {len(got)} verdicts for {len(traces)} traces')
+    res = {}
+    for i, t in enumerate(traces, start=1):
+        done, n = int(got[i].group(3)), int(got[i].group(4))
+        res[t['id']] = 'accepted' if done >= n else f'rejected at event {done + 1} of {n}: {t["events"][done]} (after {t["events"][max(0, done - 3):done]})'
+    return res
+
+
 def vault_stage(ctx, rep) -> None:
     """(C) Vault.tla: model checking and step conformance of the real re-authentication machinery."""
     from vf import vault
@@ -349,7 +417,26 @@ def run(ctx, rep) -> None:
         recs += list(ex.map(vault_case, vscs, chunksize=1))
         recs += list(ex.map(timer_case, [{'id': f'timer-{iv}-{len(b)}', 'interval': iv, 'backoffs': b, 't1': 10, 't2': 10 + d}
                                           for iv in (2, 3) for b in ([], [1], [1, 1]) for d in (6, 12)], chunksize=1))
-    bad = records.judge('Rec_Infra', [{k: v for k, v in r_.items() if k != 'scenario'} for r_ in recs], rep=rep, shard=5000)
+    # step conformance of the error pause: every call of throttlers.throttled of every object of the throttle scenarios against Throttle.tla
+    for d in ('D0', 'D1', 'D3'):
+        r = tlc.run('MC_Throttle', f'MC_Throttle_{d}.cfg')
+        rep.add_tlc(f'MC_Throttle_{d}', r)
+        if not r.ok:
+            rep.violation(f'Throttle.tla ({d}): {r.violated}', files={'tlc.out': r.out[-50000:]})
+    ttr = [t for r_ in recs if r_['kind'] == 'throttle' for t in r_.pop('ttraces', [])]
+    for t in ttr:          # a trace ends where the processing was cut (a cancellation): what follows belongs to another life
+        cut = next((i for i, e in enumerate(t['events']) if e['ev'] == 'cut'), None)
+        if cut is not None:
+            t['events'] = t['events'][:max(0, max([i for i, e in enumerate(t['events'][:cut]) if e['ev'] == 'leave'] or [-1]) + 1)]
+    ttr = [t for t in ttr if t['events']]
+    tv = judge_throttle(ttr, rep)
+    rep.traces += len(ttr); rep.evaluations += sum(len(t['events']) for t in ttr)
+    for t in ttr:
+        if any(e['ev'] == 'exit' and e['outcome'] == 'err' for e in t['events']):
+            rep.nontrivial(t['events'])
+        if tv[t['id']] != 'accepted':
+            rep.violation(f'{t["id"]}: the error pause does not follow Throttle.tla: {tv[t["id"]]}', payload=t)
+    bad = records.judge('Rec_Infra', [{k: v for k, v in r_.items() if k not in ('scenario', 'ttraces')} for r_ in recs], rep=rep, shard=5000)
     rep.evaluations += len(recs); rep.traces += len(recs)
     for rec in recs:
         if (rec['kind'] == 'retry' and rec['word']) or rec['kind'] != 'retry':
